@@ -159,13 +159,14 @@ def makeword (str : Bytes) (stop : UInt8) : Bytes × Bytes :=
   let rest := str.drop word.length
   (word, rest.drop 1)
 
-/-- the content of the C string held in a decoded buffer: the bytes before index `n` -/
-def decodedStr (r : Bytes × Nat) : Bytes := r.1.take r.2
+/-- the C string held in a decoded buffer as `putstr` sees it (`strlen`): the bytes before
+    the first NUL — an escape such as `%00` decodes to a NUL byte and cuts the string short -/
+def decodedStr (r : Bytes × Nat) : Bytes := r.1.takeWhile (· != 0)
 
 /-- `qparse_queries(tbl, query, equalchar, sepchar, &count)` on a fresh default list table:
-    the list of `(name, value)` entries appended in order (every `putstr` succeeds: C08
-    `put_spec` with no option set appends at the bottom). An empty name makes `putstr` fail
-    (EINVAL) and is not counted. -/
+    the list of `(name, value)` entries appended in order (every `putstr` succeeds — the
+    name is non-NULL, possibly empty, and the stored size `strlen(value)+1` is positive: C08
+    `put_spec` with no option set appends at the bottom). -/
 def parseQueriesLoop : (fuel : Nat) → (q : Bytes) → (eq sep : UInt8) →
     Except Fault (List (Bytes × Bytes))
   | 0, _, _, _ => .error .outOfFuel
@@ -178,8 +179,7 @@ def parseQueriesLoop : (fuel : Nat) → (q : Bytes) → (eq sep : UInt8) →
       let name ← urlDecodeRaw (name1 ++ [0])
       let value ← urlDecodeRaw (value1 ++ [0])
       let rest ← parseQueriesLoop fuel q' eq sep
-      let n := decodedStr name
-      if n = [] then pure rest else pure ((n, decodedStr value) :: rest)
+      pure ((decodedStr name, decodedStr value) :: rest)
 
 def parseQueries (q : Bytes) (eq sep : UInt8) : Except Fault (List (Bytes × Bytes)) :=
   parseQueriesLoop (q.length + 1) q eq sep
